@@ -313,6 +313,21 @@ func c16TieCases() []*pairCase {
 			"router": "ip access-list extended e1_in\n permit ip any any\ninterface Ethernet1\n ip address 10.0.1.1 255.255.255.0\n ip access-group e1_in in\n",
 			"router.raw": "ip access-list extended VPN\n permit ip host 10.5.5.1 any\ncrypto map VPN 1 ipsec-isakmp\n set peer 10.9.9.9\n" +
 				"ip access-list extended b\n permit ip host 10.5.5.2 any\ncrypto map b 1 ipsec-isakmp\n set peer 10.9.9.8\n"})
+	// One raw ACL referenced by two anchors of different kinds, one of
+	// which also exists in the Netspoc part: the verdict must not depend
+	// on which anchor is visited first.
+	for _, second := range []string{
+		"username ext@raw nopassword\nusername ext@raw attributes\n vpn-filter value raw_acl\n",
+		"group-policy rawgp internal\ngroup-policy rawgp attributes\n vpn-filter value raw_acl\ntunnel-group 10.9.9.9 type ipsec-l2l\ntunnel-group 10.9.9.9 general-attributes\n default-group-policy rawgp\n",
+		"access-group raw_acl out interface inside\n",
+	} {
+		add("ASA", "asa-raw-acl-referenced-by-two-anchors",
+			"interface Ethernet0/1\n nameif inside\naccess-list inside_in extended deny ip any4 any4\naccess-group inside_in in interface inside\n",
+			map[string]string{
+				"router": "access-list inside_in extended deny ip any4 any4\naccess-group inside_in in interface inside\n",
+				"router.raw": "access-list raw_acl extended permit udp 10.0.6.0 255.255.255.0 host 224.0.1.1 eq 123\n" +
+					"access-group raw_acl in interface inside\n" + second})
+	}
 	add("ASA", "asa-two-bad-references",
 		"interface Ethernet0/1\n nameif inside\n",
 		map[string]string{
